@@ -628,6 +628,9 @@ func driverMain(t *testing.T) int {
 	perVariant := map[string]interface{}{}
 	for _, ck := range variants {
 		bin := bins[ck.Build]
+		if only := os.Getenv("VERIF_VARIANT"); only != "" && only != ck.Variant && !(only == "-" && ck.Variant == "") {
+			continue // development aid: one variant of the property's check
+		}
 		if bin == "" {
 			continue
 		}
